@@ -540,7 +540,7 @@ func run(env *ev.Env, c Case) (o ev.Outcome) {
 				methods = acrm
 			}
 			reqHeaders := splitList(r.ACRH)
-			matched, starOrigin := anyRule(rules, origins, methods, preflight, reqHeaders)
+			matched, _ := anyRule(rules, origins, methods, preflight, reqHeaders)
 
 			acao := rec.Header().Values("Access-Control-Allow-Origin")
 			granted := len(acao) > 0
@@ -589,50 +589,45 @@ func run(env *ev.Env, c Case) (o ev.Outcome) {
 					si, r.Method, host, path, r.Origin, r.ACRM, r.ACRH, r.Bucket, rules, rec.Code, acao, rec.Header().Values("Access-Control-Allow-Methods"), rec.Header().Values("Access-Control-Allow-Headers"))
 			}
 
-			// (A) grant => some rule matches
+			// (A) grant => some rule matches; (B) preflight without a match is rejected;
+			// (D) the granted value names the requesting origin, or "*" by a "*" rule.
 			okStatus := rec.Code >= 200 && rec.Code < 300
-			if granted && !matched || preflight && okStatus && !matched {
-				// KF-C34-1: only the first Access-Control-Request-Headers field line is read;
-				// headers requested in further lines are not checked against the rule.
-				if preflight && len(r.ACRH) >= 2 && env.Known("c34.onlyFirstRequestHeadersLine") {
-					if m1, _ := anyRule(rules, origins, methods, preflight, splitList(r.ACRH[:1])); m1 {
-						o.KnownHits = append(o.KnownHits, "KF-C34-1")
-						continue
+			judge := func(rules []Rule, reqHeaders []string) string {
+				matched, starOrigin := anyRule(rules, origins, methods, preflight, reqHeaders)
+				if granted && !matched || preflight && okStatus && !matched {
+					return "CORS granted without a matching rule"
+				}
+				if granted {
+					for _, v := range acao {
+						okv := v == "*" && starOrigin
+						for _, og := range origins {
+							if v == og || v == strings.TrimSpace(og) {
+								okv = true
+							}
+						}
+						if !okv {
+							return "Access-Control-Allow-Origin names an origin no matching rule grants"
+						}
 					}
+				}
+				return ""
+			}
+			if v := judge(rules, reqHeaders); v != "" {
+				// KF-C34-1: only the first Access-Control-Request-Headers field line is read;
+				// headers requested in further lines are not checked against the rule. The
+				// response is exactly what the oracle accepts for the first line alone.
+				if preflight && len(r.ACRH) >= 2 && env.Known("c34.onlyFirstRequestHeadersLine") && judge(rules, splitList(r.ACRH[:1])) == "" {
+					o.KnownHits = append(o.KnownHits, "KF-C34-1")
+					continue
 				}
 				// KF-C34-2: the CORS cache is not invalidated when the bucket is deleted; the
 				// configuration of the deleted bucket keeps granting (up to the 60 s TTL).
-				if c.Mode == "server" && r.Bucket >= 0 && r.Bucket < 3 && w.stale[r.Bucket] != nil && env.Known("c34.staleCacheAfterBucketDelete") {
-					if ms, _ := anyRule(w.stale[r.Bucket], origins, methods, preflight, reqHeaders); ms {
-						o.KnownHits = append(o.KnownHits, "KF-C34-2")
-						continue
-					}
+				if c.Mode == "server" && r.Bucket >= 0 && r.Bucket < 3 && w.stale[r.Bucket] != nil && env.Known("c34.staleCacheAfterBucketDelete") && judge(w.stale[r.Bucket], reqHeaders) == "" {
+					o.KnownHits = append(o.KnownHits, "KF-C34-2")
+					continue
 				}
-				o.Failf("CORS granted without a matching rule: %s", desc())
+				o.Failf("%s: %s", v, desc())
 				return
-			}
-			// (B) preflight without a matching rule is rejected
-			if preflight && !matched && (okStatus || granted) {
-				o.Failf("preflight without a matching rule was not rejected: %s", desc())
-				return
-			}
-			// (D) the granted value names the requesting origin, or "*" by a "*" rule
-			if granted {
-				for _, v := range acao {
-					okv := false
-					if v == "*" && starOrigin {
-						okv = true
-					}
-					for _, og := range origins {
-						if v == og || v == strings.TrimSpace(og) {
-							okv = true
-						}
-					}
-					if !okv {
-						o.Failf("Access-Control-Allow-Origin names an origin no matching rule grants: %s", desc())
-						return
-					}
-				}
 			}
 			// (C) non-CORS requests are unaffected
 			if !hasOriginHeader {
